@@ -6,6 +6,7 @@ use crate::app::compass::{
 use serde::{Deserialize, Serialize};
 use std::{
     fs::{File, OpenOptions},
+    io::Write,
     path::Path,
 };
 
@@ -25,10 +26,29 @@ impl WriteMode {
     ) -> Result<File, CompassAppError> {
         match self {
             WriteMode::Append => {
-                if !path.exists() {
-                    write_header(path, format)?
+                // only the sink that creates the file writes the header, and nothing is ever
+                // truncated: with `if !path.exists() { fs::write(header) }` two sinks opening
+                // the same missing file at the same time both wrote the header, the second
+                // truncating the records the first had appended by then
+                match OpenOptions::new().append(true).create_new(true).open(path) {
+                    Ok(mut file) => {
+                        let header = format.initial_file_contents().unwrap_or_default();
+                        file.write_all(header.as_bytes()).map_err(|e| {
+                            CompassAppError::InternalError(format!(
+                                "failure writing to {}: {}",
+                                path.to_str().unwrap_or_default(),
+                                e
+                            ))
+                        })?;
+                        Ok(file)
+                    }
+                    Err(e) if e.kind() == std::io::ErrorKind::AlreadyExists => open_append(path),
+                    Err(e) => Err(CompassAppError::InternalError(format!(
+                        "failure writing to {}: {}",
+                        path.to_str().unwrap_or_default(),
+                        e
+                    ))),
                 }
-                open_append(path)
             }
             WriteMode::Overwrite => {
                 write_header(path, format)?;
